@@ -56,3 +56,8 @@ func vhC30ParseUintDigits() {
 	vAssert("value", err != nil || uint64(got) == refHornerWrap(b))
 	vAssert("non-negative", err != nil || got >= 0)
 }
+
+func vhTrivial() {
+	b := vByte("b")
+	vAssert("t", b == b)
+}
